@@ -20,7 +20,7 @@ from fractions import Fraction as F
 import core
 import gen
 
-PROOF_MODULES = ["UnytProofs.C15Relations", "UnytProofs.C15", "UnytProofs.C15Tab1", "UnytProofs.C15Tab2", "UnytProofs.C15Tab3", "UnytProofs.C15Tab4"]
+PROOF_MODULES = ["UnytProofs.C15Relations", "UnytProofs.C15", "UnytProofs.C15AddConstants", "UnytProofs.C15Tab1", "UnytProofs.C15Tab2", "UnytProofs.C15Tab3", "UnytProofs.C15Tab4"]
 
 GUISE_TOL = F(1, 2 ** 45)
 C2_1E7 = F(299792458) ** 2 / 10 ** 7  # 1/(4 pi eps_0) in the pre-2019 SI: (q_Gauss / q_SI)^2
@@ -240,6 +240,110 @@ def run(tier, seed):
             chk.count("dump:mat")
             if r != want:
                 chk.disagree("dump.mat", f"{gid}/{k}: generated {r} live {want}")
+
+    # ------------------------------------------------------------------ add_constants through the model (every unit system)
+    # The body of add_constants — quan.in_base(unit_system) with the UnitsNotReducible fall-back, the
+    # _mks entry, quan.in_cgs() — is executed by the model (`AddConstants.addConstantsRow`, built on the
+    # shared model of in_base / _check_em_conversion / _em_conversion) for every table row in every unit
+    # system this run builds (built-in, custom, seeded custom, the registry with user units) and the
+    # three readings are compared with what the library filed under every name of the row.  The
+    # theorems of UnytProofs/C15AddConstants.lean are about exactly these definitions.
+    from unyt.exceptions import MKSCGSConversionError
+    from unyt.unit_object import _check_em_conversion
+    from unyt.unit_systems import unit_system_registry as USR
+
+    def expr_to_wire(e):
+        c, f = gen.expr_wire(e)
+        return f"{c}@{f}"
+
+    def um_wire(S):
+        keys = {getattr(D, n) for n in S._dims} | set(S.base_units)  # without memoised entries: the model synthesises
+        return "|".join(f"{gen.dim_vec(k)}=none" if v is None else f"{gen.dim_vec(k)}={expr_to_wire(v)}"
+                        for k, v in S.units_map.items() if k in keys)
+
+    def system_of(sid):
+        if sid == "fresh":
+            return USR["mks"], ""
+        if sid.startswith("sys:"):
+            return USR[sid[4:]], ""
+        if sid.startswith("custom:"):
+            return USR["c15_" + "_".join(sid[7:].split(","))], ""
+        if sid == "custom-registry":
+            rows = [("c15_rod", 5.0292, D.length), ("c15_scruple", 1.2959782e-3, D.mass)]
+            return USR["imperial"], "|".join(f"{n}&{core.f2b(v)}&{core.f2b(0.0)}&{gen.dim_vec(d)}&0" for n, v, d in rows)
+        return None, ""
+
+    def live_route(u, S):
+        try:
+            cd = _check_em_conversion(u, unit_system=S, registry=u.registry)
+        except MKSCGSConversionError:
+            return "refused"
+        # the short-cut against the declared entries only (memoised ones depend on the history of the
+        # process-wide system object and do not change the result — C10 `memo_transparent`)
+        keys = {getattr(D, n) for n in S._dims} | set(S.base_units)
+        um = {k: v for k, v in S.units_map.items() if k in keys}
+        short = u.dimensions in um and u.expr == um[u.dimensions]
+        if not any(cd):
+            return "plain-shortcut" if short else "plain"
+        return "em-shortcut" if short else ("em-current" if cd[0] is not None else "em-gaussian")
+
+    def reading_ok(field, q):
+        """does the model's reading `value;scale;offset;dim;coeff;factors` describe the live quantity q"""
+        if q is None:
+            return field == "none"
+        parts = field.split(";", 5)
+        if len(parts) != 6:
+            return False
+        try:
+            lc, lf = gen.expr_wire(q.units.expr)
+        except ValueError:
+            return False
+        return (core.close(core.b2f(parts[0]), float(q.value), 1e-11) and core.close(core.b2f(parts[1]), float(q.units.base_value), 1e-11)
+                and core.close(core.b2f(parts[2]), float(q.units.base_offset), 1e-11) and parts[3] == gen.dim_vec(q.units.dimensions)
+                and core.close(core.b2f(parts[4]), core.b2f(lc), 1e-11) and gen.parse_factors(parts[5]) == gen.parse_factors(lf))
+
+    try:
+        cgs_um = um_wire(USR["cgs"])
+    except Exception as e:  # noqa: BLE001
+        cgs_um = ""
+        chk.disagree("materialise", f"cgs unit system unreadable: {e!r}")
+    for sid, ns in live.items():
+        try:
+            S, extra_rows = system_of(sid)
+            if S is None:
+                continue
+            umw = um_wire(S)
+            lines, meta = [], []
+            for cname in names:
+                value, unit_name, aliases = TABLE[cname]
+                u = const_unit[cname]
+                lines.append("\t".join(["c15.materialise", extra_rows, umw, cgs_um, expr_to_wire(u.expr), str(core.f2b(float(value)))]))
+                meta.append((cname, list(aliases) + [cname], u))
+        except Exception as e:  # noqa: BLE001
+            chk.disagree("materialise", f"{sid}: request could not be built: {e!r}")
+            continue
+        for (cname, all_names, u), r in zip(meta, ask(lines)):
+            chk.count("materialise:row")
+            chk.case(("materialise", sid, cname))
+            if r[0] != "ok" or len(r) < 5:
+                chk.disagree("materialise", f"{sid}/{cname}: model {r[:3]}")
+                continue
+            try:
+                lr = live_route(u, S)
+            except Exception as e:  # noqa: BLE001
+                lr = f"raised {core.exc_name(e)}"
+            chk.count("route:" + r[1])
+            if lr != r[1]:
+                chk.disagree("materialise.route", f"{sid}/{cname} ({u}): library takes route {lr}, model {r[1]}")
+            for n in all_names:
+                for suf, field in (("", r[2]), ("_mks", r[3]), ("_cgs", r[4])):
+                    q = ns.get(n + suf)
+                    if not reading_ok(field, q):
+                        chk.disagree("materialise", f"{sid}: {n + suf} = {q!r} (unit scale "
+                                     f"{float(q.units.base_value) if q is not None else None!r}) but the model of add_constants "
+                                     f"writes {[core.b2f(x) if x.isdigit() else x for x in field.split(';')[:2]] if field != 'none' else 'nothing'}"
+                                     f" [{field.split(';')[-1]}] via route {r[1]}")
+                        break
 
     # ------------------------------------------------------------------ symbolic definitions vs the live doubles
     live_ratio = {k: v for k, v in vars(PR).items()
